@@ -73,12 +73,14 @@ def bounded_info():
             "atoms are identified by their coordinates: generated molecules have pairwise distinct coordinates (checked per case), "
             "hydrogens are the atoms written with names H<k>",
             "when the end molecule has a single atom align_molecules returns before the optimiser; nothing is demanded of that call",
+            "which molecule is fixed (first array) and which is mobile (second array) is READ from the coordinates the optimiser "
+            "received; no role assignment, step budget, sigma, bond table or default deformation types are demanded",
         ],
         "explanation": (
             "Bounded run-time contracts. (1) align_molecules with the optimiser entry point recorded: single-residue molecules of "
             "1..4 x 1..4 atoms (thorough 1..5) both ways round, every hydrogen mask with a non-hydrogen on the larger molecule, mobile "
             "molecule with and without a hydrogen, every restraint list of length <= 2 over all index pairs (plus None), "
-            "ignore_hydrogens on/off, deformation_types None/(0,1); plus two-residue molecules with restrictions=None (auto-guess). "
+            "ignore_hydrogens on/off, deformation_types None/(0,1) (only explicitly given types are demanded to arrive unchanged); plus two-residue molecules with restrictions=None (auto-guess). "
             "(2) guess_residue_restrains/_split_list exhaustively for 1..40 x 1..40 (the property's own quantifier) with three offset "
             "pairs. (3) guess_protein_restrains on all molecule pairs of <= 3 residues x residue lengths 1..4 (thorough 1..5) per side, "
             "equal and unequal residue counts, name variants, seeded random larger molecules. (4) Manager.align_molecules over the "
@@ -275,15 +277,12 @@ class Agg:
 
 ALIGN_CLAUSES = (
     "ensures.returns_without_exception",
-    "ensures.optimiser_entered_once",
+    "ensures.restraints_reach_the_optimiser",
+    "args.each_array_holds_one_molecule",
     "ensures.surviving_pairs_kept_in_order_hydrogen_pairs_dropped",
     "ensures.fixed_side_designates_intended_atom",
     "ensures.mobile_side_designates_intended_atom",
-    "args.mobile_is_the_smaller_molecule",
-    "args.fixed_positions_are_the_larger_molecule",
-    "args.n_steps_and_sigma",
-    "args.bonds_info_of_mobile",
-    "args.deformation_types_forwarded",
+    "args.explicit_deformation_types_forwarded",
 )
 
 
@@ -338,8 +337,7 @@ def observe_align(case, pool):
         pos_e = np.array(al.end.atoms_positions, dtype=float)
     except Exception as e:
         raise Harness(f"cannot read positions after the call: {e}")
-    return {"calls": calls, "exc": exc, "pos_s": pos_s, "pos_e": pos_e, "spec_s": ss, "spec_e": se, "guessed": guessed,
-            "steps_factor": A.Alignment.STEPS_FACTOR, "sigma": A.Alignment.SIGMA_SCALE}
+    return {"calls": calls, "exc": exc, "pos_s": pos_s, "pos_e": pos_e, "spec_s": ss, "spec_e": se, "guessed": guessed}
 
 
 def _rigid(pos, gen, what):
@@ -357,13 +355,92 @@ def _close(a, b):
     return a.shape == b.shape and (a.size == 0 or float(np.abs(a - b).max()) <= TOL)
 
 
-def _bond_table(bonds, xyz, n):
-    t = {i: set() for i in range(n)}
-    for a, b in bonds:
-        dist = float(np.linalg.norm(np.array(xyz[a]) - np.array(xyz[b])))
-        t[a].add((b, round(dist, 5)))
-        t[b].add((a, round(dist, 5)))
-    return t
+def _row_index(arr, mol):
+    """For each row of arr the index of the atom of mol with those coordinates (None if there is none)."""
+    out = []
+    for row in arr:
+        hit = None
+        for k in range(len(mol)):
+            if float(np.abs(mol[k] - row).max()) <= TOL:
+                hit = k
+                break
+        out.append(hit)
+    return out
+
+
+def _judge_call(case, o, c, exp_s, exp_e, user, wrong=None):
+    """Clauses on one recorded optimiser call.  The roles (which molecule is fixed = first array, which is mobile =
+    second array) are READ from the coordinates the optimiser received, not demanded: the statement says
+    'whichever molecule is larger'."""
+    cl = {}
+    k_arr = "args.each_array_holds_one_molecule"
+    k_count = "ensures.surviving_pairs_kept_in_order_hydrogen_pairs_dropped"
+    k_fix = "ensures.fixed_side_designates_intended_atom"
+    k_mob = "ensures.mobile_side_designates_intended_atom"
+    try:
+        m1 = np.asarray(c.get("mol1_positions"), dtype=float)
+        m2 = np.asarray(c.get("mol2_positions"), dtype=float)
+    except Exception:
+        m1 = m2 = np.zeros((0,))
+    start_fixed = None
+    if m1.ndim == 2 and m2.ndim == 2 and m1.shape[1:] == (3,) and m2.shape[1:] == (3,) and len(m1) and len(m2):
+        s1, e1 = _row_index(m1, exp_s), _row_index(m1, exp_e)
+        s2, e2 = _row_index(m2, exp_s), _row_index(m2, exp_e)
+        if None not in s1 and None not in e2:
+            start_fixed, present = True, set(s1)
+        elif None not in e1 and None not in s2:
+            start_fixed, present = False, set(e1)
+    if start_fixed is None:
+        cl[k_arr] = (f"the position arrays received by the optimiser are not (atoms of one molecule, atoms of the other): "
+                     f"first {m1.tolist()}, second {m2.tolist()}; start {exp_s.tolist()}, end {exp_e.tolist()}")
+        return cl
+    cl[k_arr] = None
+    fixed, mobile = (exp_s, exp_e) if start_fixed else (exp_e, exp_s)
+    fmask = case["hs"] if start_fixed else case["he"]
+    if user is not None:
+        surv = []
+        for (i, j) in user:
+            f, m = (i, j) if start_fixed else (j, i)
+            # dropped only if the fixed-side atom is a hydrogen that was filtered out of the fixed array
+            if wrong == "no_drop" or not (fmask[f] and f not in present):
+                surv.append((f, m))
+        try:
+            recv = [tuple(p) for p in c["restriction"]]
+            okfmt = all(len(p) == 2 and all(isinstance(x, (int, np.integer)) and not isinstance(x, bool) for x in p) for p in recv)
+        except Exception:
+            recv, okfmt = None, False
+        if not okfmt:
+            cl[k_count] = f"received restraint list is not a list of integer pairs: {c.get('restriction')!r}"
+        else:
+            cl[k_count] = None if len(recv) == len(surv) else (
+                f"{len(recv)} pairs received {recv}, {len(surv)} expected to survive (user {user}, fixed molecule "
+                f"{'start' if start_fixed else 'end'}, its hydrogens {[i for i, h in enumerate(fmask) if h]}, atoms present in the "
+                f"fixed array {sorted(present)})")
+            bad_f = bad_m = None
+            for k, ((rf, rm), (f, m)) in enumerate(zip(recv, surv)):
+                if wrong == "identity_index":
+                    okf = (rf == f)
+                else:
+                    okf = 0 <= rf < len(m1) and _close(m1[rf], fixed[f])
+                okm = 0 <= rm < len(m2) and _close(m2[rm], mobile[m])
+                if not okf and bad_f is None:
+                    got = m1[rf].tolist() if 0 <= rf < len(m1) else "index out of the received array"
+                    bad_f = (f"entry {k}: fixed-side index {rf} designates {got}, intended fixed atom {f} of the "
+                             f"{'start' if start_fixed else 'end'} molecule at {fixed[f].tolist()} (user pair list {user}, received {recv})")
+                if not okm and bad_m is None:
+                    got = m2[rm].tolist() if 0 <= rm < len(m2) else "index out of the received array"
+                    bad_m = (f"entry {k}: mobile-side index {rm} designates {got}, intended mobile atom {m} of the "
+                             f"{'end' if start_fixed else 'start'} molecule at {mobile[m].tolist()} (user pair list {user}, received {recv})")
+            cl[k_fix] = bad_f
+            cl[k_mob] = bad_m
+    if case["deform"] is not None:      # only explicitly given deformation types are demanded; no particular default
+        wd = tuple(case["deform"])
+        try:
+            gd = tuple(int(x) for x in c.get("sim_type"))
+        except Exception:
+            gd = c.get("sim_type")
+        cl["args.explicit_deformation_types_forwarded"] = None if gd == wd else f"deformation types {c.get('sim_type')!r}, given {wd}"
+    return cl
 
 
 def judge_align(case, o, wrong=None):
@@ -372,97 +449,29 @@ def judge_align(case, o, wrong=None):
     ns, ne = sum(case["lens_s"]), sum(case["lens_e"])
     cl["ensures.returns_without_exception"] = None if o["exc"] is None else f"align_molecules raised {o['exc']}"
     calls = o["calls"]
-    if ne == 1 and not calls:
-        return cl  # documented early return: the optimiser is not entered
-    if o["exc"] is not None and not calls:
-        return cl
-    cl["ensures.optimiser_entered_once"] = None if len(calls) == 1 else f"optimiser entered {len(calls)} times"
+    if case["restr"] is None:
+        user = o["guessed"]         # None for single-residue molecules: nothing is demanded of the restraint list then
+    else:
+        user = [tuple(p) for p in case["restr"]]
     if not calls:
-        return cl
-    c = calls[0]
-    start_fixed = not (ns < ne)
+        if o["exc"] is None and ne > 1 and user:
+            cl["ensures.restraints_reach_the_optimiser"] = f"the optimiser was not entered; user restraints {user}"
+        return cl       # a single-atom end molecule returns before the optimiser (documented)
+    cl["ensures.restraints_reach_the_optimiser"] = None
+    if user is not None and any(not (0 <= i < ns and 0 <= j < ne) for i, j in user):
+        raise Harness(f"restraint list {user} has indices outside the molecules ({ns} x {ne} atoms): outside the routing contract "
+                      "(guessed lists are checked by the guess_protein_restrains contract)")
     exp_s = _rigid(o["pos_s"], o["spec_s"]["xyz"], "start")
     exp_e = _rigid(o["pos_e"], o["spec_e"]["xyz"], "end")
-    fixed, mobile = (exp_s, exp_e) if start_fixed else (exp_e, exp_s)
-    fmask = case["hs"] if start_fixed else case["he"]
-    mspec = o["spec_e"] if start_fixed else o["spec_s"]
-    # distinctness (harness sanity: identification by coordinates)
-    allp = np.vstack([fixed, mobile])
+    allp = np.vstack([exp_s, exp_e])
     for i in range(len(allp)):
         for j in range(i + 1, len(allp)):
             if np.abs(allp[i] - allp[j]).max() < 0.01:
                 raise Harness("generated coordinates coincide after the translation")
-    user = o["guessed"] if case["restr"] is None else [tuple(p) for p in case["restr"]]
-    user = user or []
-    if any(not (0 <= i < ns and 0 <= j < ne) for i, j in user):
-        raise Harness(f"restraint list {user} has indices outside the molecules ({ns} x {ne} atoms): outside the routing contract "
-                      "(guessed lists are checked by the guess_protein_restrains contract)")
-    surv = []
-    for (i, j) in user:
-        f, m = (i, j) if start_fixed else (j, i)
-        if wrong == "no_drop" or not (case["ignore_h"] and fmask[f]):
-            surv.append((f, m))
-    try:
-        recv = [tuple(p) for p in c["restriction"]]
-        okfmt = all(len(p) == 2 and all(isinstance(x, (int, np.integer)) and not isinstance(x, bool) for x in p) for p in recv)
-    except Exception:
-        recv, okfmt = None, False
-    m1 = np.asarray(c.get("mol1_positions"), dtype=float)
-    m2 = np.asarray(c.get("mol2_positions"), dtype=float)
-    k_count = "ensures.surviving_pairs_kept_in_order_hydrogen_pairs_dropped"
-    k_fix = "ensures.fixed_side_designates_intended_atom"
-    k_mob = "ensures.mobile_side_designates_intended_atom"
-    if not okfmt:
-        cl[k_count] = f"received restraint list is not a list of integer pairs: {c.get('restriction')!r}"
-    else:
-        cl[k_count] = None if len(recv) == len(surv) else (
-            f"{len(recv)} pairs received {recv}, {len(surv)} expected to survive (user {user}, fixed-side hydrogens "
-            f"{[i for i, h in enumerate(fmask) if h]}, ignore_hydrogens={case['ignore_h']})")
-        bad_f = bad_m = None
-        for k, ((rf, rm), (f, m)) in enumerate(zip(recv, surv)):
-            if wrong == "identity_index":
-                okf = (rf == f)
-            else:
-                okf = m1.ndim == 2 and 0 <= rf < len(m1) and _close(m1[rf], fixed[f])
-            okm = m2.ndim == 2 and 0 <= rm < len(m2) and _close(m2[rm], mobile[m])
-            if not okf and bad_f is None:
-                got = m1[rf].tolist() if (m1.ndim == 2 and 0 <= rf < len(m1)) else "index out of the received array"
-                bad_f = (f"entry {k}: fixed-side index {rf} designates {got}, intended fixed atom {f} of the "
-                         f"{'start' if start_fixed else 'end'} molecule at {fixed[f].tolist()} (user pair list {user}, received {recv})")
-            if not okm and bad_m is None:
-                got = m2[rm].tolist() if (m2.ndim == 2 and 0 <= rm < len(m2)) else "index out of the received array"
-                bad_m = (f"entry {k}: mobile-side index {rm} designates {got}, intended mobile atom {m} of the "
-                         f"{'end' if start_fixed else 'start'} molecule at {mobile[m].tolist()} (user pair list {user}, received {recv})")
-        cl[k_fix] = bad_f
-        cl[k_mob] = bad_m
-    # other arguments
-    cl["args.mobile_is_the_smaller_molecule"] = None if _close(m2, mobile) else (
-        f"mol2_positions {m2.tolist()} is not the {'end' if start_fixed else 'start'} molecule {mobile.tolist()}")
-    expf = fixed[[i for i, h in enumerate(fmask) if not (h and case["ignore_h"])]]
-    cl["args.fixed_positions_are_the_larger_molecule"] = None if _close(m1, expf) else (
-        f"mol1_positions {m1.tolist()} expected {expf.tolist()}")
-    want_steps = o["steps_factor"] * len(mobile)
-    oks = c.get("n_steps") == want_steps and c.get("sigma_scale") == o["sigma"] and _close(c.get("mol2_com"), mobile.mean(axis=0))
-    cl["args.n_steps_and_sigma"] = None if oks else (
-        f"n_steps={c.get('n_steps')} (expected {want_steps}), sigma={c.get('sigma_scale')} (expected {o['sigma']}), "
-        f"com={np.asarray(c.get('mol2_com')).tolist()} (expected {mobile.mean(axis=0).tolist()})")
-    try:
-        bi = c.get("mol2_bonds_info")
-        got = {i: {(int(j), round(float(dd), 5)) for j, dd in bi.get(i, [])} for i in range(len(mobile))}
-        extra = [k for k in bi if k not in got]
-    except Exception as e:
-        got, extra = None, [repr(e)]
-    want = _bond_table(mspec["bonds"], mspec["xyz"], len(mobile))
-    cl["args.bonds_info_of_mobile"] = None if (got == want and not extra) else f"bonds info {c.get('mol2_bonds_info')!r}, expected {want}"
-    if case["deform"] is not None:
-        wd = tuple(case["deform"])
-    else:
-        wd = (0,) if (ns == 1 or ne == 1) else (0, 1, 2)
-    try:
-        gd = tuple(int(x) for x in c.get("sim_type"))
-    except Exception:
-        gd = c.get("sim_type")
-    cl["args.deformation_types_forwarded"] = None if gd == wd else f"deformation types {c.get('sim_type')!r}, expected {wd}"
+    for c in calls:
+        for k, v in _judge_call(case, o, c, exp_s, exp_e, user, wrong=wrong).items():
+            if cl.get(k) is None:
+                cl[k] = v
     return cl
 
 
@@ -579,7 +588,7 @@ def task_align_auto(prop, seed):
                 agg.add(cl, case, True)
     finally:
         pool.close()
-    return agg.obligations(ALIGN_CLAUSES)
+    return agg.obligations(ALIGN_CLAUSES[:-1])
 
 
 def task_align_guards(prop, seed):
@@ -635,8 +644,10 @@ def task_align_guards(prop, seed):
             o2["calls"] = [c0]
             w = judge_align(case, o2)
             out.append(ob(base + ".corrupted.arrays_swapped",
-                          "refuted" if clean and w.get("args.mobile_is_the_smaller_molecule") and w.get("ensures.fixed_side_designates_intended_atom")
-                          else "discharged", evaluations=1, **G))
+                          "refuted" if clean and (w.get("ensures.surviving_pairs_kept_in_order_hydrogen_pairs_dropped")
+                                                  or w.get("ensures.fixed_side_designates_intended_atom")
+                                                  or w.get("ensures.mobile_side_designates_intended_atom")) else "discharged",
+                          evaluations=1, **G))
             # vacuity: the scope contains swapped / filtered / dropped situations
             n_swap = n_drop = 0
             for fm, mm in align_units(3, 4):
@@ -726,16 +737,6 @@ def eval_residue(case, A, cache=None, wrong=None, corrupt=None):
     if corrupt:
         pairs = corrupt(list(pairs))
     g1 = g2 = None
-    split = getattr(A, "_split_list", None)
-    if split is not None:
-        try:
-            k = min(n1, n2)
-            g1 = {x: gi for gi, grp in enumerate(split(list(range(n1)), k)) for x in grp}
-            g2 = {x: gi for gi, grp in enumerate(split(list(range(n2)), k)) for x in grp}
-            if len(g1) != n1 or len(g2) != n2:
-                g1 = g2 = None
-        except Exception:
-            g1 = g2 = None
     cl = {"ensures.returns_without_exception": None}
     cl.update(judge_pairs(pairs, n1, n2, off1, off2, g1, g2, wrong=wrong))
     return cl
@@ -774,6 +775,13 @@ def task_split(prop, seed):
                 cl = {"ensures.k_contiguous_nonempty_parts_in_order": f"raised {type(e).__name__}: {e}"}
             agg.add(cl, case, 1 < k < n)
     out = agg.obligations()
+    for o in out:
+        # _split_list is a private helper: the statement-level clauses on guess_residue_restrains decide; a mismatch of
+        # the helper's own contract is reported, never as a violation
+        if o["status"] == "refuted":
+            o["status"] = "undecided"
+            o["reason"] = "helper contract of the private _split_list does not hold (not a C10 clause by itself): " + o.get("reason", "")
+            o.pop("cex", None)
     # guards
     G = dict(kind="guard", engine="smallscope", backend="runtime-contract", expect="refuted")
     w = judge_split([[0, 1], [1, 2]], 3, 2)
@@ -794,8 +802,7 @@ def task_split(prop, seed):
                   "refuted" if clean and w.get("ensures.indices_within_range_offsets_applied") else "discharged", evaluations=1, **G))
     w = eval_residue(case, A, corrupt=lambda p: p + [(3, 9)])
     out.append(ob(f"{prop}/guess_residue_restrains/guard.corrupted.crossing_pair_added",
-                  "refuted" if clean and w.get("ensures.atom_order_preserved") and w.get("ensures.pairs_only_within_the_same_group")
-                  else "discharged", evaluations=1, **G))
+                  "refuted" if clean and w.get("ensures.atom_order_preserved") else "discharged", evaluations=1, **G))
     return out
 
 
@@ -867,15 +874,12 @@ def eval_protein(case, pool, A, corrupt=None):
         exc = e
     cl = {}
     if len(lens1) != len(lens2):
-        cl["ensures.unequal_residue_counts_refused_with_IOError"] = None if isinstance(exc, IOError) else (
-            f"{len(lens1)} vs {len(lens2)} residues: " + (f"raised {type(exc).__name__}: {exc}" if exc else f"returned {list(pairs)[:6]}..."))
+        # the statement: 'refused with an error' -- any exception counts
+        cl["ensures.unequal_residue_counts_refused_with_an_error"] = None if exc is not None else (
+            f"{len(lens1)} vs {len(lens2)} residues: returned {list(pairs)[:6]}...")
         return cl
-    if var == "mismatch":
-        cl["ensures.different_residue_names_refused_with_IOError(docstring)"] = None if isinstance(exc, IOError) else (
-            "residue names differ: " + (f"raised {type(exc).__name__}: {exc}" if exc else f"returned {list(pairs)[:6]}..."))
-        return cl
-    if var == "contained" and isinstance(exc, IOError):
-        return {}  # refusing similar-but-different names is allowed
+    if var in ("contained", "mismatch") and exc is not None:
+        return {}  # refusing different residue names is allowed (documented), not demanded by the statement
     if exc is not None:
         cl["ensures.returns_without_exception"] = f"raised {type(exc).__name__}: {exc}"
         return cl
@@ -965,7 +969,7 @@ def task_protein_guards(prop, seed):
         try:
             A.guess_protein_restrains(m1, m2)
             raised = False
-        except IOError:
+        except Exception:
             raised = True
         out.append(ob(base + ".wrong_clause.equal_counts_refused", "discharged" if raised else "refuted", evaluations=1, **G))
     except Harness as e:
@@ -1118,8 +1122,10 @@ def observe_manager(case, setup):
     calls = []
 
     def recorder(self, restrictions=None, deformation_types=None, ignore_hydrogens=True, auto_guess_protein_restrictions=True):
-        calls.append((getattr(self.start, "name", None), restrictions, deformation_types, ignore_hydrogens))
+        calls.append((names.get(id(self)) or getattr(getattr(self, "start", None), "name", None), restrictions, deformation_types,
+                      ignore_hydrogens))
 
+    names = {id(al): nm for nm, al in setup.manager.molecule_correspondence.items()}
     args = [_materialise(k, case[k]) for k in ("R", "D", "H")]
     exc = None
     with _class_attr(A.Alignment, "align_molecules", recorder):
